@@ -220,6 +220,13 @@ def case_to_req(case, gis, next_id):
             "next_id": next_id, "genes": genes, "reads": case["reads"]}
 
 
+def impl_effective_delta(strategy, delta):
+    try:
+        return run_set_matching_options(strategy, delta).delta
+    except (KeyError, SystemExit) as ex:
+        return {"error": "error", "exc": type(ex).__name__}
+
+
 def guarded(fn, *a, **kw):
     try:
         return vlib.canon(fn(*a, **kw))
@@ -281,6 +288,13 @@ def correspondence(ctx):
         io = guarded(impl_pipeline_counts, case, gis)
         lines.append(vlib.req("C13.pipeline_counts", **kw))
         post.append(("pipeline_counts", {"case": case}, io, lambda mo: len(mo["exon"]) + len(mo["intron"]) > 0, _cmp_pipeline))
+
+    # (e) the delta a run uses: real set_matching_options vs the model over the regenerated preset table
+    for strategy in ("exact", "precise", "default", "loose", "no_such_strategy"):
+        for dv in (None, 0, 1, 2, 4, 6, 12, 30, -1):
+            kw = {"strategy": strategy, "delta": dv}
+            lines.append(vlib.req("C13.effective_delta", **kw))
+            post.append(("effective_delta", kw, impl_effective_delta(strategy, dv), lambda mo: True, None))
 
     outs = ctx.driver.run(lines)
     for (op, kw, io, nontriv, cmpf), mo in zip(post, outs):
@@ -408,14 +422,25 @@ def annotation_rows(kind, isos, chrom):
     return {f: ("".join(sorted(s)), sorted(g)) for f, (s, g) in info.items()}
 
 
-def oracle_tables(tables, reads, chrom, d, abs_d, default_group):
+def oracle_tables(tables, reads, chrom, d, abs_d, default_group, annotation=None):
     """reads: list of dict(blocks, polya, polyt, group, isos = the annotation visible to the read).
     tables: {'exon': rows, 'intron': rows, 'exon_grouped': rows, 'intron_grouped': rows} as parsed from the dumps.
     Returns list of (kind, detail)."""
     fails = []
     for kind in ("exon", "intron"):
         strict, lenient, lo, hi = {}, {}, {}, {}
-        ann = {}
+        # what a row must say is what the ANNOTATION says about the feature (all genes of the chromosome), not what the
+        # genes loaded for one read cluster happen to contain
+        if annotation is None:
+            seen_t, annotation_ = set(), []
+            for r in reads:
+                for t in r["isos"]:
+                    if t["tid"] not in seen_t:
+                        seen_t.add(t["tid"])
+                        annotation_.append(t)
+        else:
+            annotation_ = annotation
+        ann = dict(annotation_rows(kind, annotation_, chrom))
         for r in reads:
             a = annotation_rows(kind, r["isos"], chrom)
             K = sorted(a)
@@ -510,42 +535,81 @@ def oracle_inprocess(case):
     if "bad_header" in io:
         return [("header", str(io))]
     reads = [dict(r, isos=case["loads"][r["gene"]]) for r in case["reads"]]
-    return oracle_tables(io, reads, case["chr"], case["d"], case["abs_d"], case["default_group"])
+    return oracle_tables(io, reads, case["chr"], case["d"], case["abs_d"], case["default_group"], case.get("annotation"))
 
 
 # ---- pipeline level ------------------------------------------------------------------------------
 
 PIPE_CONFIGS = [
-    # (matching strategy / delta args, expected delta, read group args)
-    (["--matching_strategy", "exact"], 0, None),
-    (["--matching_strategy", "precise"], 4, "tag:RG"),
-    (["--matching_strategy", "default"], 6, None),
-    (["--matching_strategy", "loose"], 12, "read_id:_"),
-    (["--delta", "2"], 2, "tag:RG"),
-    ([], None, "read_id:_"),          # data-type default
+    # (matching strategy / delta args, read group args, explicit-delta run: reads get splice-site shifts of 1..6 bp)
+    (["--matching_strategy", "exact"], None, False),
+    (["--matching_strategy", "precise"], "tag:RG", False),
+    (["--matching_strategy", "default"], None, False),
+    (["--matching_strategy", "loose"], "read_id:_", False),
+    (["--delta", "2"], "tag:RG", True),
+    ([], "read_id:_", False),          # data-type default
+    # an explicit --delta overrides the preset of every strategy, 0 included ("exact comparison requested")
+    (["--delta", "0"], None, True),
+    (["--delta", "0", "--matching_strategy", "precise"], "tag:RG", True),
+    (["--delta", "2", "--matching_strategy", "loose"], "read_id:_", True),
 ]
+EXPLICIT_SHIFTS = [1, 2, 3, 4, 5, 6]
 
 
-def preset_delta(args_list, data_type="nanopore"):
-    """delta the run uses, from the repo's own option code (not from a copy)"""
-    vlib.repo_on_path()
-    import importlib.util
-    spec = importlib.util.spec_from_file_location("isoquant_main_c13", os.path.join(vlib.REPO, "isoquant.py"))
-    m = importlib.util.module_from_spec(spec)
-    spec.loader.exec_module(m)
-    ns = SimpleNamespace(matching_strategy=None, delta=None, data_type=data_type, resolve_ambiguous="default")
-    for i, a in enumerate(args_list):
-        if a == "--matching_strategy":
-            ns.matching_strategy = args_list[i + 1]
-        if a == "--delta":
-            ns.delta = int(args_list[i + 1])
+_ISOQUANT_MAIN = {}
+
+
+def isoquant_main():
+    """the repo's isoquant.py loaded as a module (its own option code, not a copy)"""
+    if vlib.REPO not in _ISOQUANT_MAIN:
+        vlib.repo_on_path()
+        import importlib.util
+        spec = importlib.util.spec_from_file_location("isoquant_main_c13", os.path.join(vlib.REPO, "isoquant.py"))
+        m = importlib.util.module_from_spec(spec)
+        spec.loader.exec_module(m)
+        _ISOQUANT_MAIN[vlib.REPO] = m
+    return _ISOQUANT_MAIN[vlib.REPO]
+
+
+def run_set_matching_options(strategy, delta, data_type="nanopore"):
+    """the real `set_matching_options` on a fresh namespace -> the namespace"""
+    m = isoquant_main()
+    ns = SimpleNamespace(matching_strategy=strategy, delta=delta, data_type=data_type, resolve_ambiguous="default")
     if ns.matching_strategy is None:
         ns.matching_strategy = {"assembly": "precise", "pacbio_ccs": "precise", "nanopore": "default"}.get(data_type, "default")
     m.set_matching_options(ns)
-    return ns.delta, ns.minimal_intron_absence_overlap
+    return ns
 
 
-def synth_dataset(seed, d):
+def requested_delta(args_list, data_type="nanopore"):
+    """the delta the USER asked for: the explicit `--delta` value when given (taken from the command line, not from
+    the option code), else the preset of the (explicit or data-type default) matching strategy as the repo's own
+    option code computes it with no explicit delta.  Also returns minimal_intron_absence_overlap."""
+    strategy, explicit = None, None
+    for i, a in enumerate(args_list):
+        if a == "--matching_strategy":
+            strategy = args_list[i + 1]
+        if a == "--delta":
+            explicit = int(args_list[i + 1])
+    ns = run_set_matching_options(strategy, None, data_type)
+    return (explicit if explicit is not None else ns.delta), ns.minimal_intron_absence_overlap
+
+
+def oracle_options():
+    """option-level relation: an explicit delta survives `set_matching_options` for every matching strategy (the
+    generated `matching_presets` table only describes the defaults)"""
+    fails = []
+    ns0 = run_set_matching_options("default", None)
+    for strategy in ("exact", "precise", "default", "loose"):
+        for d in (0, 1, 2, 5, 6, 12, 30):
+            ns = run_set_matching_options(strategy, d)
+            if ns.delta != d:
+                fails.append(("explicit_delta_ignored", {"level": "options", "strategy": strategy, "delta": d},
+                              "set_matching_options(matching_strategy=%s, delta=%d) leaves args.delta = %r" % (strategy, d, ns.delta)))
+    return fails
+
+
+def synth_dataset(seed, d, shifts=None):
     """synthetic chromosomes: multi-isoform genes with alternative sites (some within delta), contained exons, a gene
     sharing exons with another one (multi-gene features), genes loaded for several read clusters, read groups"""
     import random
@@ -572,7 +636,9 @@ def synth_dataset(seed, d):
             end = max(e[1] for t in isos for e in t["feats"])
             for t in isos:
                 for k in range(rng.randint(2, 5)):
-                    blocks = F.read_from_isoform(rng, t["feats"], d if d is not None else 6)
+                    # explicit-delta runs: splice sites shifted by 1..6 bp (inside every preset delta)
+                    jit = rng.choice(shifts) if shifts else (d if d is not None else 6)
+                    blocks = F.read_from_isoform(rng, t["feats"], jit)
                     blocks = [b for b in blocks if b[1] - b[0] >= 14] or [tuple(t["feats"][0])]
                     ok = all(blocks[j + 1][0] - blocks[j][1] >= 15 for j in range(len(blocks) - 1))
                     if not ok:
@@ -603,9 +669,9 @@ def oracle_pipeline(seed, cfg_index, repo=None, keep=None):
     """run the real pipeline with --count_exons and recount from BAM + GTF"""
     import pipeline as P
     import pysam
-    margs, _, rg = PIPE_CONFIGS[cfg_index]
-    d, abs_d = preset_delta(margs)
-    ds, truth = synth_dataset(seed, d)
+    margs, rg, explicit = PIPE_CONFIGS[cfg_index]
+    d, abs_d = requested_delta(margs)
+    ds, truth = synth_dataset(seed, d, EXPLICIT_SHIFTS if explicit else None)
     root = P.scratch("isoverif_c13_pipe_")
     try:
         paths = ds.write(os.path.join(root, "data"))
@@ -740,6 +806,11 @@ def oracle(ctx, disagreements, broken):
         elif dgr["op"] == "count_dump":
             for kind, detail in oracle_history(inp):
                 ctx.fail(kind, {"level": "history", "case": inp}, detail)
+        elif dgr["op"] == "effective_delta":
+            st, dv = inp["strategy"], inp["delta"]
+            if dv is not None and dv >= 0 and not vlib.is_err(impl_effective_delta(st, dv)) and impl_effective_delta(st, dv) != dv:
+                ctx.fail("explicit_delta_ignored", {"level": "options", "strategy": st, "delta": dv},
+                         "set_matching_options(matching_strategy=%s, delta=%d) leaves args.delta = %r" % (st, dv, impl_effective_delta(st, dv)))
         elif dgr["op"] in ("exon_profile", "intron_profile"):
             for kind, detail in oracle_profile(dgr["op"], inp):
                 ctx.fail(kind, {"level": "profile", "op": dgr["op"], "case": inp}, detail)
@@ -761,6 +832,8 @@ def oracle(ctx, disagreements, broken):
         for kind, detail in oracle_profile(op, kw):
             ctx.fail(kind, {"level": "profile", "op": op, "case": kw}, detail)
     replay_witnesses(ctx)
+    for kind, inp, detail in oracle_options():
+        ctx.fail(kind, inp, detail)
     # 3. the real pipeline
     runs = []
     cfgs = list(range(len(PIPE_CONFIGS)))
@@ -771,7 +844,7 @@ def oracle(ctx, disagreements, broken):
         for s in range(n_seeds):
             seed = ctx.seed * 1000 + ci * 17 + s
             fails, stats = oracle_pipeline(seed, ci)
-            runs.append({"cfg": PIPE_CONFIGS[ci][0] + ([PIPE_CONFIGS[ci][2]] if PIPE_CONFIGS[ci][2] else []), "seed": seed,
+            runs.append({"cfg": PIPE_CONFIGS[ci][0] + ([PIPE_CONFIGS[ci][1]] if PIPE_CONFIGS[ci][1] else []), "seed": seed,
                          "stats": stats, "failures": len(fails)})
             for kind, detail in fails:
                 ctx.fail(kind, {"level": "pipeline", "seed": seed, "cfg": ci}, detail)
@@ -860,6 +933,8 @@ def replay(ctx, failure):
     if lvl == "pipeline":
         fails, _ = oracle_pipeline(inp["seed"], inp["cfg"])
         return any(k == failure["kind"] for k, _ in fails)
+    if lvl == "options":
+        return run_set_matching_options(inp["strategy"], inp["delta"]).delta != inp["delta"]
     if lvl == "toy":
         fails, _ = toy_rows_unique()
         return any(k == failure["kind"] for k, _ in fails)
